@@ -2,6 +2,8 @@ import Amgcl.Proofs.SolverCG
 import Amgcl.Proofs.SolverBiCGStab
 import Amgcl.Proofs.SolverRichardson
 import Amgcl.Model.SolverPreonly
+import Amgcl.Proofs.SolverGMRESExact
+import Amgcl.Proofs.SolverGMRESArnoldi
 import Mathlib.Algebra.Order.Field.Rat
 /-!
 # C05 — each Krylov method produces its defining iterates  (CG, BiCGStab, Richardson, preonly)
@@ -186,5 +188,189 @@ example : ∀ v z : Vec ℚ, v.size = A₀.nrows → spmv 1 A₀ (P₀ v) 0 z = 
     | 1, _ => simp [A₀, CRS.row, rowDot, e0, e1]; ring
 
 end nonvacuous
+
+/-! ## Second package: GMRES / FGMRES with an exact preconditioner
+
+With `A·(P v) = v` restarted GMRES (right preconditioning) and FGMRES make exactly ONE iteration, report residual `0`
+and return the exact solution — assuming the square root is exact on the single number `⟨r₀,r₀⟩` it is applied to
+(`hroot`; this is the instance of `hsqrt : ∀ x ≥ 0, sqrt x * sqrt x = x` that is needed, true at `ℝ` with
+`Real.sqrt`; with the rational `rsqrt` of the executable instances it holds when `⟨r₀,r₀⟩` is a perfect square, the
+harness' tag `exact_root`), the inner product is homogeneous (`hip`; `stdIp_smul`: the backend's inner product is),
+`‖0‖ = 0`, and `0 < eps` (with `eps = 0` the code keeps iterating on the zero residual until `maxiter`).
+Left-preconditioned GMRES needs `P·(A v) = v` and a linear `P` in addition and is covered by the harness oracle
+only (tag `exact_prec_one_step`). -/
+section second
+variable {K : Type} [Field K] [DecidableEq K] [LT K] [DecidableLT K]
+
+theorem gmres_exact_precond (prm : GMRES.Params K) (hside : prm.pside = .right) (ip : Vec K → Vec K → K)
+    (sqrt : K → K) (eps : K) (A : CRS K) (hA : A.WF) (P : Vec K → Vec K) (hP : ∀ v, (P v).size = A.ncols)
+    (hAP : ∀ v z, v.size = A.nrows → spmv 1 A (P v) 0 z = v)
+    (ws : GMRES.Work K) (f x0 : Vec K) (nf : K) (hp : prologueA prm.nsSearch ip sqrt eps f = .go nf)
+    (hip : ∀ (a : K) (u z z' : Vec K), ip (axpby a u 0 z) (axpby a u 0 z') = a * a * ip u u)
+    (hroot : sqrt (ip (residual f A x0) (residual f A x0)) * sqrt (ip (residual f A x0) (residual f A x0))
+      = ip (residual f A x0) (residual f A x0))
+    (hne : ip (residual f A x0) (residual f A x0) ≠ 0) (hmax : 1 ≤ prm.maxiter)
+    (hstart : ¬ nrmA ip sqrt (residual f A x0) < GMRES.epsTol prm nf)
+    (hz : nrmA ip sqrt (vclear A.nrows) = 0) (heps0 : ¬ GMRES.epsTol prm nf < 0) (heps : 0 < GMRES.epsTol prm nf) :
+    ∃ x w, GMRES.solve prm ip sqrt eps A P ws f x0 = .ok (1, 0, x, w) ∧ residual f A x = vclear A.nrows := by
+  have hy : GMRES.ExactHyp ip sqrt A P (residual f A x0) (GMRES.epsTol prm nf) :=
+    ⟨hA, hP, hAP, hip, hroot, hne, hz, hstart, heps0, heps⟩
+  obtain ⟨h1, h2, h3⟩ := GMRES.exact_final prm hside ip sqrt A P ws f x0 nf hmax hy
+  refine ⟨(GMRES.final prm ip sqrt A P ws f x0 nf).x, (GMRES.final prm ip sqrt A P ws f x0 nf).w, ?_, ?_⟩
+  · rw [GMRES.solve, Run.toExcept_ok, GMRES.run_go _ _ _ _ _ _ _ _ _ nf hp, h1, h2, zero_div]
+  · rw [h3]; exact residual_after_exact A hA P hP hAP f x0
+
+theorem fgmres_exact_precond (prm : FGMRES.Params K) (ip : Vec K → Vec K → K)
+    (sqrt : K → K) (eps : K) (A : CRS K) (hA : A.WF) (P : Vec K → Vec K) (hP : ∀ v, (P v).size = A.ncols)
+    (hAP : ∀ v z, v.size = A.nrows → spmv 1 A (P v) 0 z = v)
+    (ws : FGMRES.Work K) (f x0 : Vec K) (nf : K) (hp : prologueA prm.nsSearch ip sqrt eps f = .go nf)
+    (hip : ∀ (a : K) (u z z' : Vec K), ip (axpby a u 0 z) (axpby a u 0 z') = a * a * ip u u)
+    (hroot : sqrt (ip (residual f A x0) (residual f A x0)) * sqrt (ip (residual f A x0) (residual f A x0))
+      = ip (residual f A x0) (residual f A x0))
+    (hne : ip (residual f A x0) (residual f A x0) ≠ 0) (hmax : 1 ≤ prm.maxiter)
+    (hstart : ¬ nrmA ip sqrt (residual f A x0) < FGMRES.epsTol prm nf)
+    (hz : nrmA ip sqrt (vclear A.nrows) = 0) (heps0 : ¬ FGMRES.epsTol prm nf < 0)
+    (heps : 0 < FGMRES.epsTol prm nf) :
+    ∃ x w, FGMRES.solve prm ip sqrt eps A P ws f x0 = .ok (1, 0, x, w) ∧ residual f A x = vclear A.nrows := by
+  have hy : FGMRES.ExactHyp ip sqrt A P (residual f A x0) (FGMRES.epsTol prm nf) :=
+    ⟨hA, hP, hAP, hip, hroot, hne, hz, hstart, heps0, heps⟩
+  obtain ⟨h1, h2, h3⟩ := FGMRES.exact_final prm ip sqrt A P ws f x0 nf hmax hy
+  refine ⟨(FGMRES.final prm ip sqrt A P ws f x0 nf).x, (FGMRES.final prm ip sqrt A P ws f x0 nf).w, ?_, h3⟩
+  rw [FGMRES.solve, Run.toExcept_ok, FGMRES.run_go _ _ _ _ _ _ _ _ _ nf hp, h1, h2, zero_div]
+
+/-- the homogeneity hypothesis `hip` holds for the backend's inner product -/
+theorem std_inner_product_homogeneous (a : K) (u z z' : Vec K) :
+    stdIp (axpby a u 0 z) (axpby a u 0 z') = a * a * stdIp u u := stdIp_smul a u z z'
+
+end second
+
+/-! ### non-vacuity (second package): the exact matrix preconditioner `M₀ = A₀⁻¹`, `f = (3, 4)`, `x₀ = 0`, so that
+`⟨r₀,r₀⟩ = 25`, with a `sqrt` that is exact on the two numbers it meets (`25 ↦ 5`, `0 ↦ 0`) -/
+section nonvacuous2
+
+private def sqrt₀ : ℚ → ℚ := fun x => if x = 25 then 5 else 0
+private def gmPrm : GMRES.Params ℚ :=
+  { maxiter := 5, tol := 1/100, abstol := 0, nsSearch := false, M := 3, pside := .right }
+private def fgPrm : FGMRES.Params ℚ := { maxiter := 5, tol := 1/100, abstol := 0, nsSearch := false, M := 3 }
+
+example : sqrt₀ (stdIp (residual #[3, 4] A₀ #[0, 0]) (residual #[3, 4] A₀ #[0, 0]))
+    * sqrt₀ (stdIp (residual #[3, 4] A₀ #[0, 0]) (residual #[3, 4] A₀ #[0, 0]))
+    = stdIp (residual #[3, 4] A₀ #[0, 0]) (residual #[3, 4] A₀ #[0, 0]) := by decide +kernel
+example : nrmA stdIp sqrt₀ (vclear A₀.nrows) = 0 := by decide +kernel
+example : prologueA gmPrm.nsSearch stdIp sqrt₀ 0 #[3, 4] = .go 5 :=
+  (prologueA_go _ _ _ _ _ _).mpr (Or.inr (by decide +kernel))
+example : 0 < GMRES.epsTol gmPrm 5 ∧ ¬ nrmA stdIp sqrt₀ (residual #[3, 4] A₀ #[0, 0]) < GMRES.epsTol gmPrm 5 := by
+  decide +kernel
+
+example : ∃ x w, GMRES.solve gmPrm stdIp sqrt₀ 0 A₀ P₀ (GMRES.Work.fresh 2) #[3, 4] #[0, 0] = .ok (1, 0, x, w) ∧
+    residual #[3, 4] A₀ x = vclear A₀.nrows := by
+  have h : (match GMRES.solve gmPrm stdIp sqrt₀ 0 A₀ P₀ (GMRES.Work.fresh 2) #[3, 4] #[0, 0] with
+      | .ok (it, res, x, _) => decide (it = 1 ∧ res = 0 ∧ residual #[3, 4] A₀ x = vclear A₀.nrows)
+      | _ => false) = true := by decide +kernel
+  split at h
+  · rename_i it res x w heq
+    obtain ⟨h1, h2, h3⟩ := of_decide_eq_true h
+    subst h1 h2
+    exact ⟨x, w, heq, h3⟩
+  · cases h
+
+example : ∃ x w, FGMRES.solve fgPrm stdIp sqrt₀ 0 A₀ P₀ (FGMRES.Work.fresh 2) #[3, 4] #[0, 0] = .ok (1, 0, x, w) ∧
+    residual #[3, 4] A₀ x = vclear A₀.nrows := by
+  have h : (match FGMRES.solve fgPrm stdIp sqrt₀ 0 A₀ P₀ (FGMRES.Work.fresh 2) #[3, 4] #[0, 0] with
+      | .ok (it, res, x, _) => decide (it = 1 ∧ res = 0 ∧ residual #[3, 4] A₀ x = vclear A₀.nrows)
+      | _ => false) = true := by decide +kernel
+  split at h
+  · rename_i it res x w heq
+    obtain ⟨h1, h2, h3⟩ := of_decide_eq_true h
+    subst h1 h2
+    exact ⟨x, w, heq, h3⟩
+  · cases h
+
+end nonvacuous2
+
+/-! ## The Arnoldi process of GMRES as coded (modified Gram–Schmidt, `gmres.hpp:208-225`)
+
+`IpOK ip n`: the inner product is symmetric and linear in its first argument on vectors of length `n` (in the form the
+code applies it, through `axpby`); the backend's inner product has these properties in every field (`stdIp_ipOK`).
+`Orthonormal ip n v j`: `v[0..j]` have length `n` and `⟨v_a, v_b⟩ = δ_ab`. -/
+section arnoldi
+variable {K : Type} [Field K] [DecidableEq K] [LT K] [DecidableLT K]
+
+/-- **one Arnoldi step**: after `orth` (Gram–Schmidt against `v[0..j]`, `H(j+1,j) = ‖w‖`, `v_new = w/‖w‖`) the new
+vector is orthogonal to all previous ones — for ANY function `sqrt`, breakdown or not —, has unit length when the
+root is exact on `⟨w,w⟩` and `H(j+1,j) ≠ 0`, and the input vector is reproduced by column `j` of `H`:
+`v_in = Σ_{k ≤ j} H(k,j)·v_k + H(j+1,j)·v_new` (entrywise; no root hypothesis). -/
+theorem gmres_arnoldi_step (ip : Vec K → Vec K → K) (sqrt : K → K) (n : Nat) (hip : IpOK ip n) (v : FArr (Vec K))
+    (j : Nat) (H : FArr2 K) (vnew : Vec K) (hv : Orthonormal ip n v j) (hn : vnew.size = n) :
+    (∀ i, i ≤ j → ip (orth ip sqrt v j H vnew).2 (v.get i) = 0) ∧
+    ((orth ip sqrt v j H vnew).1.get (j + 1) j ≠ 0 →
+      (sqrt (ip (mgs ip v j H vnew).2 (mgs ip v j H vnew).2) * sqrt (ip (mgs ip v j H vnew).2 (mgs ip v j H vnew).2)
+          = ip (mgs ip v j H vnew).2 (mgs ip v j H vnew).2 →
+        ip (orth ip sqrt v j H vnew).2 (orth ip sqrt v j H vnew).2 = 1) ∧
+      ∀ t, t < n → vnew.getD t 0
+        = (∑ k ∈ Finset.range (j + 1), (orth ip sqrt v j H vnew).1.get k j * (v.get k).getD t 0)
+          + (orth ip sqrt v j H vnew).1.get (j + 1) j * (orth ip sqrt v j H vnew).2.getD t 0) :=
+  ⟨fun i hi => orth_orthogonal ip sqrt n hip v j H vnew hv hn i hi,
+   fun hne => ⟨fun hroot => orth_normalised ip sqrt n hip v j H vnew hv hn hroot hne,
+               fun t ht => orth_arnoldi ip sqrt n hip v j H vnew hv hn hne t ht⟩⟩
+
+/-- **`gmres_arnoldi_partial`**: for every restart cycle of GMRES (both preconditioning sides; `A' u = A P u` resp.
+`P A u`), started from a state at the `break` test (`norm_r = ‖r‖ ≠ 0`, root exact on `⟨r,r⟩`): when the inner loop
+has ended after `j` steps without breakdown (`H̃(i+1,i) ≠ 0` and the root exact on `⟨w_i,w_i⟩` for `i < j`, where `H̃`
+is the UNROTATED Hessenberg matrix and `w_i` the orthogonalised vector — GMRES overwrites `H` by the Givens
+rotations, so both are carried as ghost state `Ghost` next to the model's loop, `innerG_fst`), the basis
+`v[0..j]` is orthonormal and `A' v_i = Σ_{k ≤ i+1} H̃(k,i)·v_k` for every `i < j`; and `H̃(i+1,i) = ‖w_i‖` always.
+
+PARTIAL with respect to the plan's statement: "the Givens-reduced `|s_{j+1}|` equals the least-squares residual" (and
+hence the minimisation property and residual monotonicity) is NOT proved; it is decided by the labelled
+double-precision least-squares test of the harness only. -/
+theorem gmres_arnoldi_partial (prm : GMRES.Params K) (ip : Vec K → Vec K → K) (sqrt : K → K) (A : CRS K)
+    (P : Vec K → Vec K) (epsT : K) (st : GMRES.St K) (g0 : GMRES.Ghost K) (n : Nat) (hip : IpOK ip n)
+    (hA : ∀ u : Vec K, (GMRES.Aop prm.pside P A u).size = n) (hr : st.w.r.size = n)
+    (hnr : st.normR = nrmA ip sqrt st.w.r)
+    (hroot0 : sqrt (ip st.w.r st.w.r) * sqrt (ip st.w.r st.w.r) = ip st.w.r st.w.r) (hne0 : st.normR ≠ 0) :
+    (∀ i, i < (GMRES.inner prm ip sqrt A P epsT st).j →
+      (GMRES.innerG prm ip sqrt A P epsT st g0).2.Ht.get (i + 1) i
+        = nrmA ip sqrt ((GMRES.innerG prm ip sqrt A P epsT st g0).2.W.get i)) ∧
+    (GMRES.NoBreakdown ip sqrt (GMRES.innerG prm ip sqrt A P epsT st g0).2 (GMRES.inner prm ip sqrt A P epsT st).j →
+      Orthonormal ip n (GMRES.inner prm ip sqrt A P epsT st).w.v (GMRES.inner prm ip sqrt A P epsT st).j ∧
+      ∀ i, i < (GMRES.inner prm ip sqrt A P epsT st).j → ∀ τ, τ < n →
+        (GMRES.Aop prm.pside P A ((GMRES.inner prm ip sqrt A P epsT st).w.v.get i)).getD τ 0
+          = ∑ k ∈ Finset.range (i + 2), (GMRES.innerG prm ip sqrt A P epsT st g0).2.Ht.get k i
+              * ((GMRES.inner prm ip sqrt A P epsT st).w.v.get k).getD τ 0) :=
+  GMRES.inner_arnoldi prm ip sqrt A P epsT st g0 n hip hA hr hnr hroot0 hne0
+
+/-- the hypotheses on the inner product hold for the backend's inner product, in every field -/
+theorem std_inner_product_ok (n : Nat) : IpOK (stdIp : Vec K → Vec K → K) n := stdIp_ipOK n
+
+end arnoldi
+
+/-! non-vacuity of `gmres_arnoldi_partial` over `ℚ` with the executable `rsqrt` and the backend inner product:
+`A = [[1,0],[3,1]]`, `f = (2,0)`, `x₀ = 0`, `M = 1` (`r = (2,0)`, `v₀ = (1,0)`, `A v₀ = (1,3)`, `H̃(0,0) = 1`,
+`w₀ = (0,3)`, `H̃(1,0) = 3`: all roots exact, no breakdown) -/
+section nonvacuous3
+
+private def A₂ : CRS ℚ := ⟨2, #[[(0, 1)], [(0, 3), (1, 1)]]⟩
+private def prm₂ : GMRES.Params ℚ :=
+  { maxiter := 5, tol := 0, abstol := 0, nsSearch := false, M := 1, pside := .right }
+private def st₂ : GMRES.St ℚ := GMRES.init prm₂ stdIp Amgcl.rsqrt A₂ id (GMRES.Work.fresh 2) #[2, 0] #[0, 0]
+private def g₂ : GMRES.Ghost ℚ := ⟨.const 0, .const #[]⟩
+
+example :
+    Orthonormal stdIp 2 (GMRES.inner prm₂ stdIp Amgcl.rsqrt A₂ id 0 st₂).w.v
+      (GMRES.inner prm₂ stdIp Amgcl.rsqrt A₂ id 0 st₂).j ∧
+    ∀ i, i < (GMRES.inner prm₂ stdIp Amgcl.rsqrt A₂ id 0 st₂).j → ∀ τ, τ < 2 →
+      (GMRES.Aop .right id A₂ ((GMRES.inner prm₂ stdIp Amgcl.rsqrt A₂ id 0 st₂).w.v.get i)).getD τ 0
+        = ∑ k ∈ Finset.range (i + 2), (GMRES.innerG prm₂ stdIp Amgcl.rsqrt A₂ id 0 st₂ g₂).2.Ht.get k i
+            * ((GMRES.inner prm₂ stdIp Amgcl.rsqrt A₂ id 0 st₂).w.v.get k).getD τ 0 := by
+  have hj : (GMRES.inner prm₂ stdIp Amgcl.rsqrt A₂ id 0 st₂).j = 1 := by decide +kernel
+  have hnb : GMRES.NoBreakdown stdIp Amgcl.rsqrt (GMRES.innerG prm₂ stdIp Amgcl.rsqrt A₂ id 0 st₂ g₂).2
+      (GMRES.inner prm₂ stdIp Amgcl.rsqrt A₂ id 0 st₂).j := by
+    rw [hj]; unfold GMRES.NoBreakdown; decide +kernel
+  exact (gmres_arnoldi_partial prm₂ stdIp Amgcl.rsqrt A₂ id 0 st₂ g₂ 2 (std_inner_product_ok 2)
+    (GMRES.Aop_size_right id A₂) (by decide +kernel) (by decide +kernel) (by decide +kernel)
+    (by decide +kernel)).2 hnb
+
+end nonvacuous3
 
 end Amgcl.C05
